@@ -265,7 +265,10 @@ def cargo_build(crate, features=None, timeout=3000, bin=None):
         cmd += ["--bin", bin]
     if features:
         cmd += ["--features", ",".join(features)]
-    rc, out, dt = sh(cmd, cwd=os.path.join(HARNESS, crate), timeout=timeout)
+    rc, out, dt = sh(cmd, cwd=os.path.join(HARNESS, crate), timeout=max(timeout, 7200))
+    if rc == 124:
+        # waiting for the shared target-dir lock / an overloaded machine is not a verdict about the property
+        raise RuntimeError("cargo build of %s timed out after %.0f s (machine overloaded or target dir locked)" % (crate, dt))
     return rc == 0, out, dt
 
 
